@@ -745,10 +745,13 @@ fn gen_case(rng: &mut Rng, idx: u64, _run: &Run) -> Vec<String> {
                 // (whether it succeeds depends on links in use; the generator does not track that)
             }
             38..=49 => {
-                let dt = match rng.below(5) {
+                let dt = match rng.below(7) {
                     0 => 0.0,
                     1 => 0.1,
                     2 => 0.6,
+                    // the clock reads a hair EARLIER (1 .. 4097 units of 2^-64 s) or later: the next measurement
+                    // must fail with NonMonotonic for every backwards reading, however small
+                    3 => *rng.pick(&[-5.5e-20, -1.1e-19, -1e-17, -2.2e-16, -2.3e-16, 5.5e-20, 2.2e-16]),
                     _ => rng.f64_unit() * 4.0,
                 };
                 ops.push(format!("tick dt={}", f(dt)));
